@@ -43,11 +43,24 @@ def main():
         if f.startswith("--tier="):
             tier = f.split("=")[1]
     os.makedirs(TMP, exist_ok=True)
-    scr = tempfile.mkdtemp(prefix="seed-", dir=TMP)
+    # fixed slots (instead of fresh temp dirs) keep the path and mtimes of unmodified files stable, so numba's on-disk
+    # cache (keyed by file path + mtime) is reused from one evaluation to the next
+    scr = None
+    for k in range(12):
+        cand = os.path.join(TMP, f"slot-{k}")
+        try:
+            os.makedirs(cand, exist_ok=True)
+            os.mkdir(os.path.join(cand, "LOCK"))
+            scr = cand
+            break
+        except FileExistsError:
+            continue
+    if scr is None:
+        scr = tempfile.mkdtemp(prefix="seed-", dir=TMP)
     repo = os.path.join(scr, "repo")
     res = {"dir": d}
     try:
-        subprocess.run(["rsync", "-a", "--exclude", ".git", "--exclude", "__pycache__", "/repo/", repo + "/"], check=True)
+        subprocess.run(["rsync", "-a", "--delete", "--exclude", ".git", "--exclude", "__pycache__", "/repo/", repo + "/"], check=True)
         if os.path.exists("/tmp/wt/compat_shim.py") and not os.path.exists(os.path.join(d, "compat_shim.py")):
             shutil.copy("/tmp/wt/compat_shim.py", os.path.join(d, "compat_shim.py"))
         rc0, out0 = run_demo(d, repo)
@@ -89,7 +102,15 @@ def main():
         res["verdicts"] = verdicts
         print("RESULT " + json.dumps(res))
     finally:
-        shutil.rmtree(scr, ignore_errors=True)
+        if os.path.basename(scr).startswith("slot-"):
+            subprocess.run(["rsync", "-a", "--delete", "--exclude", ".git", "--exclude", "__pycache__", "/repo/", repo + "/"])
+            for f in os.listdir(scr):
+                if f not in ("repo", "LOCK"):
+                    pth = os.path.join(scr, f)
+                    shutil.rmtree(pth, ignore_errors=True) if os.path.isdir(pth) else os.remove(pth)
+            os.rmdir(os.path.join(scr, "LOCK"))
+        else:
+            shutil.rmtree(scr, ignore_errors=True)
     return 0
 
 
